@@ -44,7 +44,7 @@ Definition snc (rb : RB) (delta n : N) : option N :=
   | Agg l => Some (sumN (map (fun r => snn r delta n) l))
   end.
 
-(* demand::step_offsets(rb).take_while(|a| a < h): Offset::closed_from_time_zero(delta) = delta - 1;
-   None = the checked subtraction underflows (a step of length zero) *)
+(* demand::step_offsets(rb).take_while(|a| a < h): Offset::closed_from_time_zero(delta) = delta - 1 for every
+   non-zero step; zero-length steps are skipped.  Always Some (the option is kept for compatibility). *)
 Definition step_offsets_below (steps : list N) : option (list N) :=
-  if existsb (fun d => d =? 0) steps then None else Some (map (fun d => d - 1) steps).
+  Some (map (fun d => d - 1) (filter (fun d => 0 <? d) steps)).
